@@ -14,6 +14,11 @@ trait HK: Header + 'static {
     const SIZE_OFF: usize;
     /// A header image with legal enumerated fields and marker bytes elsewhere.
     fn template() -> [u8; 16];
+    /// Further header images whose enumerated fields hold other defined values (kind-specific special cases: the end
+    /// type, the other architecture, the other flag).
+    fn variants() -> Vec<[u8; 16]> {
+        vec![Self::template()]
+    }
 }
 impl HK for DummyTestHeader {
     const NAME: &'static str = "DummyTestHeader";
@@ -33,6 +38,9 @@ impl HK for TagHeader {
         let mut t = [0u8; 16];
         wr32(&mut t, 0, 0x0000_1337);
         t
+    }
+    fn variants() -> Vec<[u8; 16]> {
+        [0x1337u32, 0, 1, 3, 21, 0xFFFF_FFFF].iter().map(|&ty| { let mut t = [0u8; 16]; wr32(&mut t, 0, ty); t }).collect()
     }
 }
 impl HK for BootInformationHeader {
@@ -55,6 +63,18 @@ impl HK for HeaderTagHeader {
         wr16(&mut t, 2, 1); // a defined flag
         t
     }
+    fn variants() -> Vec<[u8; 16]> {
+        let mut v = vec![];
+        for ty in [5u16, 0, 1, 10] {
+            for fl in [1u16, 0] {
+                let mut t = [0u8; 16];
+                wr16(&mut t, 0, ty);
+                wr16(&mut t, 2, fl);
+                v.push(t);
+            }
+        }
+        v
+    }
 }
 impl HK for Multiboot2BasicHeader {
     const NAME: &'static str = "Multiboot2BasicHeader";
@@ -66,6 +86,11 @@ impl HK for Multiboot2BasicHeader {
         wr32(&mut t, 4, 4); // MIPS32: a defined architecture
         wr32(&mut t, 12, 0x9182_7364);
         t
+    }
+    fn variants() -> Vec<[u8; 16]> {
+        let mut a = Self::template();
+        wr32(&mut a, 4, 0); // i386
+        vec![Self::template(), a]
     }
 }
 
@@ -86,12 +111,15 @@ fn run_kind<H: HK>(ctx: &mut Ctx, arena: &Arena, max_len: usize) {
             declared.push(e);
         }
     }
+    for (vi, t) in H::variants().into_iter().enumerate() {
     for len in 0..=max_len {
+        if vi > 0 && len > 40 {
+            continue; // the further variants: short slices (every verdict class still occurs)
+        }
         for align in 0..8usize {
             for &decl in &declared {
                 // the slice image: header template with the declared size, marker payload
                 let mut img = vec![0u8; len];
-                let t = H::template();
                 for i in 0..len {
                     img[i] = if i < H::HDR { t[i] } else { marker(i, 1) };
                 }
@@ -102,6 +130,7 @@ fn run_kind<H: HK>(ctx: &mut Ctx, arena: &Arena, max_len: usize) {
                 let describe = || {
                     J::obj()
                         .set("header_kind", H::NAME)
+                        .set("header_variant", vi)
                         .set("slice_len", len)
                         .set("start_alignment", align)
                         .set("declared_size", decl)
@@ -120,6 +149,7 @@ fn run_kind<H: HK>(ctx: &mut Ctx, arena: &Arena, max_len: usize) {
                 });
             }
         }
+    }
     }
 }
 
@@ -338,7 +368,7 @@ fn run(ctx: &mut Ctx) {
     let arena = Arena::new(2);
     let max_len = if ctx.quick() { 48 } else { 128 };
     ctx.bound("slices", format!("slice lengths 0..={} x start alignments 0..7 x declared sizes 0..={} + EDGE32, per header kind; slices end at most 7 bytes before a PROT_NONE guard page (0 bytes for every accepted slice); each leaf executed under fill A and fill B", max_len, max_len + 24));
-    ctx.bound("header_kinds", "DummyTestHeader, TagHeader, BootInformationHeader, HeaderTagHeader, Multiboot2BasicHeader");
+    ctx.bound("header_kinds", "DummyTestHeader, TagHeader (types 0x1337, 0 = end, 1, 3, 21, 0xFFFFFFFF), BootInformationHeader, HeaderTagHeader (types 5, 0 = end, 1, 10 x both flags), Multiboot2BasicHeader (both architectures); the first variant of each with the full slice range, the others with slices up to 40 bytes");
     if !ctx.uniform() {
         // the test-utility header is not part of decoding Multiboot2 data: left out of cross-configuration runs
         run_kind::<DummyTestHeader>(ctx, &arena, max_len);
